@@ -3,7 +3,7 @@
 import json, os
 VERIF = os.path.dirname(os.path.dirname(os.path.abspath(__file__)))
 
-TB = ("Trusted: Verus 0.2026.09.13 / Z3; the extractor's syntactic normalisations N1-N7 (self-checked every run); assume_specification for "
+TB = ("Trusted: Verus 0.2026.09.13 / Z3; the extractor's syntactic normalisations N1-N7 (self-checked every run) and N10 (derive(PartialEq) on a struct expanded to the field-wise impl it stands for); assume_specification for "
       "iN::is_negative/is_positive/abs/unsigned_abs/rem_euclid/div_euclid, Result::unwrap_or_else, i64::from(bool); message strings dropped "
       "(format!/panic! text); derives (Default/PartialEq/Ord on Date) by their documented meaning; ")
 CLAIMED = {
